@@ -48,6 +48,9 @@ func c14Values() []any {
 		// integers around the 32/53/64-bit boundaries, floats that must stay floats
 		2147483647, 2147483648, -2147483649, 9007199254740993, math.MaxInt64, math.MinInt64, 0.1, 1e21, 1e-7,
 		m("big", 3000000000, "huge", 9007199254740993, "max", math.MaxInt64, "f", 0.1), l(2147483648, 4294967296, -2147483649),
+		// long strings (chunked encoders) and list entries that are empty or end in the delimiter
+		strings.Repeat("a", 1023), strings.Repeat("b", 1024), strings.Repeat("c", 1025), strings.Repeat("xyz~", 1000), l(strings.Repeat("q", 1500), "r"),
+		l("a", "b", ""), l("", ""), l("a,", "b,"), l("a/", "/"), l("a", ""), l(",", ","), m("k", l("a", "b", "")),
 		// strings whose leading/trailing white space is part of the value (block scalars in YAML), also as the last leaf
 		"x\n", "x\ny\n\n", " x ", "\n", m("k", "x\n"), m("a", 1, "k", "x\ny\n\n"), l("a", "b\n"), m("k", " lead"), m("k", "trail "), m("k", "\tx"), l("  "),
 	}
@@ -647,7 +650,7 @@ func buildC14(tier string) *core.Plan {
 		}})
 	return &core.Plan{
 		Spaces: spaces,
-		Rule:   "63 values (scalars, strings with significant leading/trailing white space, flat/nested maps and lists, list-valued and empty-string entries) x every stack of <=2 of 29 transform spellings and of 3 (thorough: 4) well-formed ones (valid, malformed arguments, unknown, non-string) in map form, list-marker form and $value form; decode(encode(v)) for 6 formats (thorough: also for every tree of <=4 nodes over 10 scalars incl. number- and yaml-looking strings)",
+		Rule:   "75 values (scalars, long strings, lists with empty or delimiter-ended entries, strings with significant leading/trailing white space, flat/nested maps and lists, list-valued and empty-string entries) x every stack of <=2 of 29 transform spellings and of 3 (thorough: 4) well-formed ones (valid, malformed arguments, unknown, non-string) in map form, list-marker form and $value form; decode(encode(v)) for 6 formats (thorough: also for every tree of <=4 nodes over 10 scalars incl. number- and yaml-looking strings)",
 		Assumptions: []string{"refEncode is built on crypto/sha256, encoding/base64, encoding/json and strings; yaml/toml text is judged by parsing it back with yaml.v3 / go-toml called directly (not through bkl) and comparing values",
 			"not judged: base64/sha256 of containers, join/prefix/tolist over nested containers, toml of non-maps or of empty/mixed arrays, a transform applied to yaml/toml text (exact bytes not fixed)"},
 		Bounds: map[string]any{"values": len(vals), "transforms": len(c14Transforms)},
